@@ -262,7 +262,7 @@ impl Run {
             .ok()
             .and_then(|s| s.parse().ok())
             .unwrap_or(match tier {
-                Tier::Quick => 40,
+                Tier::Quick => 50,
                 Tier::Thorough => 1500,
             });
         let mode = match replay {
@@ -350,8 +350,16 @@ impl Run {
     pub fn merge(&self, t: Tally) {
         self.total.lock().unwrap().merge(t);
     }
+    /// With VERIF_TRACE set: where the time goes (elapsed seconds when a family is announced or done).
+    pub fn trace(&self, s: &str) {
+        if std::env::var_os("VERIF_TRACE").is_some() {
+            eprintln!("[{:8.2}s] {}", self.start.elapsed().as_secs_f64(), s.chars().take(100).collect::<String>());
+        }
+    }
     pub fn bound(&self, s: impl Into<String>) {
-        self.bounds.lock().unwrap().push(s.into());
+        let s = s.into();
+        self.trace(&s);
+        self.bounds.lock().unwrap().push(s);
     }
     pub fn cap_hit(&self, s: impl Into<String>) {
         let s = s.into();
